@@ -14,7 +14,7 @@ class Device:
     """Base: answers every complete CR LF line written to the port via `answer(line) -> list[str]`."""
 
     def __init__(self, latency=lambda n, line: 0.02, chunker=None, swallow_first=0, silent_after_replies=None,
-                 eof_after_bytes=None, eof_exc=None, unsolicited=()):
+                 eof_after_bytes=None, eof_exc=None, unsolicited=(), drop_at=None):
         self.latency = latency
         self.chunker = chunker
         self.swallow = swallow_first
@@ -22,6 +22,7 @@ class Device:
         self.eof_after = eof_after_bytes
         self.eof_exc = eof_exc
         self.unsolicited = list(unsolicited)
+        self.drop_at = drop_at
         self.port = None
         self.buf = bytearray()
         self.n_cmds = 0
@@ -35,6 +36,11 @@ class Device:
 
     def attach(self, port):
         self.port = port
+        if self.drop_at is not None:
+            if self.drop_at <= 0:
+                self.drop_link()
+            else:
+                sched.S.at(sched.us(self.drop_at), self.drop_link)
         for delay, line in self.unsolicited:
             sched.S.at(sched.us(delay), lambda l=line: self._emit_line(l, unsolicited=True))
 
